@@ -208,6 +208,10 @@ class History:
                 return False
             ends = (o.obj.qD[0].copy(), o.obj.qD[-1].copy())
             ts = float(rng.choice([0, 0, 1e-6]))
+            if rng.random() < 0.25 and np.any(o.obj.qd):
+                # the operator in a different, equally valid labelling (shifted physical labels, all-zero labels for a charge-diagonal operator)
+                Hk = Obj('mpo', gen.relabelled_operator(rng, Hk.obj), None, Hk.universe)
+                self.hist.append('relabel-H')
             dH = monitor.digest(Hk.obj)
             if op == 'tdvp1':
                 ptn.integrate_local_singlesite(Hk.obj, o.obj, 0.1j, int(rng.integers(1, 3)), numiter_lanczos=4)
